@@ -356,9 +356,9 @@ def _build_value_queries():
 
 def obligations(tier):
     quick = tier == "quick"
-    n = 3 if quick else 4
-    ns, sn, sv = (3, S_NAMES_Q, S_VALUES_Q) if quick else (3, S_NAMES_T, S_VALUES_T)
-    hist_ops = H_OPS if quick else H_OPS + [("setitem", b"a", b"1"), ("delitem", b"ab", False), ("insert", 7, b"a", b"9"), ("set_all", b"ab", (b"1",))]
+    n = 2 if quick else 3
+    ns, sn, sv = (2, S_NAMES_Q, S_VALUES_Q) if quick else (3, S_NAMES_T, S_VALUES_T)
+    hist_ops = H_OPS[:2] + H_OPS[3:5] + H_OPS[6:7] + H_OPS[8:15] if quick else H_OPS + [("setitem", b"a", b"1"), ("delitem", b"ab", False), ("insert", 7, b"a", b"9"), ("set_all", b"ab", (b"1",))]
     nstates = sum((len(NAMES) * len(SVALS)) ** i for i in range(n + 1))
     return [
         Symx("inductive-step", lambda X: h_step(X, n), bounds=f"all {nstates} field tuples of <= {n} entries (names {{a,A,b,B,ab}} x values {{1,2}}) x {len(_OPS)} operation instances "
